@@ -44,6 +44,12 @@ func main() {
 		if handled, code := checks.ReplayKV(os.Args[3]); handled {
 			os.Exit(code)
 		}
+		if handled, code := checks.ReplayGate(os.Args[3]); handled {
+			os.Exit(code)
+		}
+		if handled, code := checks.ReplayTrace(os.Args[3]); handled {
+			os.Exit(code)
+		}
 		if handled, code := checks.ReplayScenario(os.Args[3]); handled {
 			os.Exit(code)
 		}
